@@ -253,6 +253,58 @@ def _prepare(ip, node, st, lc, extra_names=()):
     return tag, names, attrs, lists
 
 
+def _z3_consts(t, acc):
+    seen = set()
+    stack = [t]
+    while stack:
+        x = stack.pop()
+        if x.get_id() in seen:
+            continue
+        seen.add(x.get_id())
+        if z3.is_const(x) and x.decl().kind() == z3.Z3_OP_UNINTERPRETED:
+            acc.add(x.decl().name())
+        stack.extend(x.children())
+
+
+def _value_terms(v, acc):
+    if isinstance(v, (SNum, SBool, SBV)):
+        acc.append(v.t)
+    elif isinstance(v, SRec):
+        for x in v.vals.values():
+            _value_terms(x, acc)
+    elif isinstance(v, SObj):
+        for k, x in v.fields.items():
+            if not k.startswith('__'):
+                _value_terms(x, acc)
+    elif isinstance(v, (tuple, list)):
+        for x in v:
+            _value_terms(x, acc)
+    elif isinstance(v, SList) and not v.concrete:
+        _value_terms(v.length, acc)
+        _value_terms(v.elem(SNum(z3.Int('dep!probe'))), acc)
+    elif isinstance(v, SList):
+        for x in v.items:
+            _value_terms(x, acc)
+
+
+def _symbols_of(ip, exprs, st):
+    """names of the z3 constants occurring in the values of the given expressions in state st"""
+    names = set()
+    for e in exprs:
+        v = ip.spec_value(e, st)
+        ts = []
+        _value_terms(v, ts)
+        for t in ts:
+            _z3_consts(t, names)
+    return names
+
+
+def _depends_on(ip, outs, st, source_syms):
+    names = _symbols_of(ip, outs, st)
+    # the path condition under which the outputs were computed counts too
+    return names & source_syms
+
+
 def cut_loop(ip, node, st, lc):
     """while-loop with invariant"""
     yield from _cut(ip, node, st, lc, None, None)
@@ -303,7 +355,10 @@ def _cut(ip, node, st, lc, seq, n):
         if label in (lc.ghost_update or {}):
             names.add(label)
 
-    # 1. invariants on entry
+    # 1. entry clauses and invariants on entry
+    for cl in lc.entry:
+        f = ip.spec_bool(cl.src, st)
+        ctx.oblige(st, f'{tag}#entry:{cl.label}', 'entry', cl.role, f, node.lineno, note=cl.src)
     for label, src in lc.invariants:
         f = ip.spec_bool(src, st)
         ctx.oblige(st, f'{tag}#inv-entry:{label}', 'inv-entry', lc.role, f, node.lineno, note=src)
@@ -375,6 +430,13 @@ def _cut(ip, node, st, lc, seq, n):
     for label, src in lc.invariants:
         st.assume(ip.spec_bool(src, st))
     head_locs = snapshot(st)
+    head_state = st.clone()
+    st.loop_heads = list(getattr(st, 'loop_heads', [])) + [head_state]
+    head_syms = {}
+    dep_sigs = {}
+    if lc.independent:
+        for label, outs, srcs in lc.independent:
+            head_syms[label] = _symbols_of(ip, srcs, st)
     v0 = ip.spec_value(lc.variant, st) if lc.variant else None
     base_pc = len(st.pc)
 
@@ -418,6 +480,35 @@ def _cut(ip, node, st, lc, seq, n):
                         f2.vars[idx_name] = mm.arith(ctx, '+', f2.vars[idx_name], 1)
                     for label, upd in (lc.ghost_update or {}).items():
                         s2.frame.vars[label] = ip.spec_value(upd, s2)
+                    for cl in lc.hypotheses_end:
+                        s2.assume(ip.spec_bool(cl.src, s2))
+                        ctx.trusted[f'hypothesis on the dynamics (assumed at every step): {cl.label}: {cl.src}'] += 0
+                    for cl in lc.step:
+                        f = ip.spec_bool(cl.src, s2)
+                        o = ctx.oblige(s2, f'{tag}#step:{cl.label}', 'step', cl.role, f, node.lineno, note=cl.src)
+                        if o is not None:
+                            o.clause = cl
+                    for label, outs, srcs in lc.independent:
+                        bad = _depends_on(ip, outs, s2, head_syms[label])
+                        # paths that differ only in conditions on the sources must compute the same outputs
+                        conds = []
+                        for cnd in s2.pc[base_pc:]:
+                            nm = set()
+                            _z3_consts(cnd, nm)
+                            if not (nm & head_syms[label]):
+                                conds.append(cnd.sexpr())
+                        key = (label, tuple(sorted(conds)))
+                        ts = []
+                        for e in outs:
+                            _value_terms(ip.spec_value(e, s2), ts)
+                        sig = tuple(t.sexpr() for t in ts)
+                        seen_sigs = dep_sigs.setdefault(key, sig)
+                        if seen_sigs != sig:
+                            bad = set(bad) | {'<outputs differ between paths that differ only in the sources>'}
+                        ctx.oblige(s2, f'{tag}#dep:{label}', 'dep', 'clause',
+                                   z3.BoolVal(not bad), node.lineno,
+                                   note=f'{outs} after the step do not depend on {srcs}' +
+                                        (f'  [offending symbols: {sorted(bad)[:6]}]' if bad else ''))
                     for label, src in lc.lemmas_end:
                         ctx.reveal_depth += 1
                         try:
